@@ -1,6 +1,5 @@
 // package-dir: tasklane
 // crash: violation
-// race: on
 package tasklane
 
 // Replay harness for the TaskLane properties (C06, C07, C08, C14; the same file under four names). The obligations
